@@ -1,0 +1,20 @@
+//go:build !verif
+
+// Package verifhook provides named schedule/crash points for the external
+// verification harness under /verif. Without the "verif" build tag every
+// function is an empty inlinable body.
+package verifhook
+
+import "io"
+
+// Enabled reports whether hooks are compiled in.
+const Enabled = false
+
+// SetHandlers is a no-op without the verif tag.
+func SetHandlers(point func(name string), reader func(name string, r io.Reader) io.Reader) {}
+
+// Point is a no-op without the verif tag.
+func Point(name string) {}
+
+// WrapReader returns r without the verif tag.
+func WrapReader(name string, r io.Reader) io.Reader { return r }
